@@ -157,6 +157,15 @@ func overlayFor(repo string, v Variant) (map[string][]byte, string) {
 			return nil, "patch unreadable: " + err.Error()
 		}
 		for _, fp := range files {
+			if fp.New {
+				// a file the change adds to an existing package: its content is the added lines
+				var nl []string
+				for _, h := range fp.Hunks {
+					nl = append(nl, h.newLines...)
+				}
+				ov[filepath.Join(repo, fp.File)] = []byte(strings.Join(nl, "\n") + "\n")
+				continue
+			}
 			s, err := get(fp.File)
 			if err != nil {
 				return nil, "file missing: " + fp.File
